@@ -76,6 +76,8 @@ func RunHTTP(behs [][]Step, tr *Trace, env Env, sum *Summary) {
 			cfg.Response.Headers = []string{respPlain}
 		case "colon":
 			cfg.Response.Headers = []string{respColon}
+		case "nospace": // no blank after the colon, and a tab after it
+			cfg.Response.Headers = []string{"X-Frame-Options:DENY", "X-Tab:\tv"}
 		}
 		h.Config = cfg
 		// ---- request: the body is a valid registration of a fresh agent, so "reached the agent protocol" is observable
@@ -150,6 +152,12 @@ func RunHTTP(behs [][]Step, tr *Trace, env Env, sum *Summary) {
 					resp = "plain"
 				} else {
 					resp = "?" + got.Get("X-Resp")
+				}
+			case "nospace":
+				if strings.TrimSpace(got.Get("X-Frame-Options")) == "DENY" && strings.TrimSpace(got.Get("X-Tab")) == "v" {
+					resp = "nospace"
+				} else {
+					resp = "?" + got.Get("X-Frame-Options") + "|" + got.Get("X-Tab")
 				}
 			case "colon":
 				if strings.TrimSpace(got.Get("Location")) == "http://h:80/p" {
